@@ -9,8 +9,8 @@ import os
 
 from . import tlaval, tlc
 from .c16_backends import ABSENT, HEAD, DictBackend, DiskBackend, GitView, ReftableBackend
-from .c16_replay import (METHOD, Finding, call_case, call_str, diff_desc, eff, git_diffs, is_prefix, placement,
-                         state_features, _cls, _got, _ser, _tagns)
+from .c16_replay import (METHOD, Finding, base_str, call_case, call_str, diff_desc, eff, git_diffs, is_prefix, placement,
+                         state_features, sub_case, _cls, _got, _ser, _tagns)
 from .core import MachineryError
 
 BIG_NAMES = [HEAD, ("refs", "heads", "a"), ("refs", "heads", "a", "b"), ("refs", "heads", "a", "c"),
@@ -95,6 +95,12 @@ class Recorder:
              "get": [{"n": list(x), "r": r} for x, r in api["get"].items()],
              "peeled": [{"n": list(x), "p": p or ""} for x, p in api["peeled"].items()],
              "asd": [], "asdx": "", "sym": [], "symx": "",
+             "sub": [{"base": list(s["base"]), "mode": s["mode"],
+                      "keysx": s["keys"] if isinstance(s["keys"], str) else "",
+                      "keys": [list(k) for k in s["keys"]] if not isinstance(s["keys"], str) else [],
+                      "asdx": s["asd"] if isinstance(s["asd"], str) else "",
+                      "asd": [{"k": list(k), "v": x} for k, x in s["asd"].items()] if not isinstance(s["asd"], str) else []}
+                     for s in api["sub"]],
              "git": {"on": False, "head_ok": False, "refs": [], "peeled": [], "symref": [], "head_sym": []},
              "_get": dict(api["get"]), "_api": api, "_locks": sc["locks"] if sc else []}
         if isinstance(api["as_dict"], dict):
@@ -391,6 +397,12 @@ def describe(rec: Recorder, obj, step, clause, want, name):
         else:
             sig = f"{site}.get_peeled|peeled|name={placement(post_l, post_p, name)}{_tagns(name)} unresolvable got={_cls(p)}"
         what = f"get_peeled({'/'.join(name)}) gives {p}; refs[...] is {want}"
+    elif clause.startswith("subkeys:") or clause.startswith("as_dict-base:"):
+        s = e["_api"]["sub"][int(clause.split(":")[1]) - 1]
+        keys = clause.startswith("subkeys:")
+        sig = f"{site}.{'subkeys' if keys else 'as_dict'}|read|{sub_case(s, post_l, post_p, s['keys'] if keys else s['asd'])}"
+        what = (f"{'subkeys' if keys else 'as_dict'}({base_str(s)!r}) gives {_ser(s['keys'] if keys else s['asd'])} "
+                f"in state {_ser(post_e)}")
     elif clause == "as_dict":
         a = e["_api"]["as_dict"]
         sig = f"{site}.as_dict|read|state={feats} got={_got(a)}"
